@@ -78,6 +78,11 @@ func genC04(t *rapid.T, all bool) c04Case {
 			c.Prog.Beh[r.Output] = b
 		}
 	}
+	// never an empty range (the clamps above can make the stop block meet the start block at the head of the chain):
+	// that request is rightly refused ("start block and stop block are the same")
+	if c.Run.Stop != 0 && c.Run.Stop <= c.Run.Start {
+		c.Run.Stop = c.Run.Start + 1
+	}
 	c.ResumeFresh = rapid.IntRange(0, 3).Draw(t, "fresh") == 0
 	if !all {
 		n := rapid.IntRange(2, 5).Draw(t, "nresume")
